@@ -369,10 +369,13 @@ def build(template_path, repo, variant="strict", inline=None):
         toks = list(item.toks)
         toks = _apply_rules(toks, opts["rules"], log, where, item.kind)
         if item.kind == "fn" and inline:
+            if inline.get("__desugar__"):
+                # R21: Option combinators with closure arguments that have no specification -> their defining `match`
+                toks = R.desugar_option_calls(toks, inline["__desugar__"], log, where)
             # R20 first: the unit's cuts and subs then see the helper's text as part of the function, as they did before the
             # helper was split off
             for hname, helper in inline.items():
-                if hname != item.name:
+                if hname != "__desugar__" and hname != item.name:
                     toks = R.inline_helper(toks, helper, log, where)
         for (tag, pat, optional) in opts.get("cuts", []):
             try:
